@@ -107,7 +107,7 @@ def run(ck):
                 (places[k] / "x.h").write_text("#pragma once\nclass X_%s {\n__published:\n  int f();\n};\nint in_%s;\n" % (k, k))
             # the includer: either main.h in cwd, or mid.h found through I1/sub (its directory is searched second)
             via_mid = rng.random() < 0.4
-            form = rng.choice(['"x.h"', '"x.h"', "<x.h>"])
+            form = rng.choice(['"x.h"', '"x.h"', "<x.h>", "<x.h>", '"./x.h"', "<./x.h>", '"sub/../x.h"', "<sub/../x.h>", '".//x.h"'])      # every directory has a sub/
             if via_mid:
                 mid_dir = dirs["I1"] / "sub"
                 if rng.random() < 0.5:
@@ -187,17 +187,27 @@ def run(ck):
                 extra = ["-I", str(L / "lib")]
             if rng.random() < 0.3:
                 files_cmd.reverse()
-            igcmd = [str(bdir / "bin" / "interrogate"), "-D__cplusplus", "-oc", "o.cxx", "-od", "o.in", "-module", "m", "-library", "l", "-c", "-fnames"] + extra + files_cmd
-            rc, so, se = iglib.sh(igcmd, cwd=str(cwd), timeout=60)
-            files = {"layout.txt": "lib/bee.h named on the command line; first reached through %s as \"%s\"\ncmd (cwd=<layout>/cwd): %s\n" % (via, spelling, " ".join(igcmd))}
+            # run either in the source directory, or elsewhere with -srcdir naming it (relative output paths then belong to the directory the tool was started in)
+            rundir = cwd
+            srcdir = []
+            if rng.random() < 0.5:
+                rundir = L / "elsewhere" / "run"      # (not a sibling of the source directory: `../lib` means something else here)
+                rundir.mkdir(parents=True)
+                srcdir = ["-srcdir", rng.choice(["../../cwd", str(cwd)])]
+                if via == "-I" and rng.random() < 0.5:
+                    extra = ["-I", "../../lib"]          # relative to the directory the tool was started in
+            igcmd = [str(bdir / "bin" / "interrogate"), "-D__cplusplus"] + srcdir + ["-oc", "o.cxx", "-od", "o.in", "-module", "m", "-library", "l", "-c", "-fnames"] + extra + files_cmd
+            rc, so, se = iglib.sh(igcmd, cwd=str(rundir), timeout=60)
+            files = {"layout.txt": "lib/bee.h named on the command line; first reached through %s as \"%s\"\ncmd (started in <layout>/%s): %s\n" % (via, spelling, rundir.name, " ".join(igcmd))}
             exported = []
+            cwd = rundir
             if rc == 0 and (cwd / "o.in").exists():
                 if not LAY:
                     LAY.append(dbgen.Layouts())
                 lay = LAY[0]
                 db = dbgen.dec_file(lay, (cwd / "o.in").read_bytes())
                 exported = sorted(t["_name"].decode() for _, t in db["type"] if t["_name"] in (b"Bee",) and t["_flags"] & lay.enums["type"]["F_fully_defined"] and t["_flags"] & lay.enums["type"]["F_global"])
-            ck.corr_case("explicit-file-ownership", files["layout.txt"], exported == ["Bee"], detail="exported %s" % exported, feature=[via, spelling])
+            ck.corr_case("explicit-file-ownership", files["layout.txt"], exported == ["Bee"], detail="exported %s" % exported, feature=[via, spelling] + (["-srcdir"] if srcdir else []))
             ck.search_case("explicit-file-is-own")
             if rc != 0:
                 ck.violation("interrogate-fails-layout", "interrogate failed: %s" % se[-300:], files, se[-2000:])
